@@ -1,0 +1,440 @@
+//go:build verif
+
+package jsonld
+
+// Verification hooks (build tag `verif` only; nothing here is compiled into a normal build).
+//
+// VerifExpand exposes the value the decoder hands from the expansion algorithm to its
+// deserialize-to-RDF walk (decodeElement), rendered as one token; VerifDecodeExpanded runs that walk
+// on a tree given in the same rendering.
+//
+//	exp  := 'N'                       nil ExpandedValue
+//	      | 'Z'                       a typed nil pointer of one of the Expanded* types
+//	      | 'A' exp* ']'              *ExpandedArray
+//	      | 'O' (hex ';' exp)* '}'    *ExpandedObject, members sorted by name (bytes)
+//	      | 'P' pval jtxt             *ExpandedScalarPrimitive
+//	pval := 'z' (nil Value) | 'n' | 't' | 'f' | 's' hex ';' | 'd' bits ':' dec ';' | 'o' | 'a' | '?'
+//	dec  := 'nan' | sign 'inf' | sign digits 'e' ['-'] digits     shortest digits of strconv ('e', -1)
+//	jtxt := 'j' hex ';' (json.Encoder text of Value.AsBuiltin(), trailing newline dropped)
+//	      | 'e' (the encoder failed) | 'p' (AsBuiltin or the encoder panicked) | '-' (nil Value)
+
+import (
+	"bytes"
+	"encoding/json"
+	"fmt"
+	"io"
+	"math"
+	"slices"
+	"strconv"
+	"strings"
+
+	"github.com/dpb587/inspectjson-go/inspectjson"
+	"github.com/dpb587/rdfkit-go/encoding/jsonld/internal/jsonldinternal"
+	"github.com/dpb587/rdfkit-go/encoding/jsonld/jsonldtype"
+	"github.com/dpb587/rdfkit-go/rdf"
+	"github.com/dpb587/rdfkit-go/rdf/blanknodes"
+)
+
+// VerifExpand performs the steps of parseRoot up to and including expansion on a decoder built like
+// NewDecoder does and returns the rendering of the expanded value. stage names the step which failed
+// ("config", "parse", "expand") or is empty.
+func VerifExpand(r io.Reader, opts ...DecoderOption) (tree string, stage string, err error) {
+	d, err := NewDecoder(r, opts...)
+	if err != nil {
+		return "", "config", err
+	}
+
+	topt := inspectjson.TokenizerConfig{}
+
+	if d.captureTextOffsets {
+		topt = topt.SetSourceInitialOffset(d.initialTextOffset)
+	}
+
+	ts, err := inspectjson.Parse(d.r, append(d.parserOptions, topt)...)
+	if err != nil {
+		return "", "parse", err
+	} else if ts == nil {
+		return "", "parse", io.ErrUnexpectedEOF
+	}
+
+	popts := jsonldtype.ProcessorOptions{
+		ProcessingMode: d.processingMode,
+		DocumentLoader: d.documentLoader,
+		ExpandContext:  d.expandContext,
+	}
+
+	if len(d.defaultBase) > 0 {
+		popts.BaseURL = d.defaultBase
+	}
+
+	ets, err := jsonldinternal.Expand(ts, popts)
+	if err != nil {
+		return "", "expand", err
+	}
+
+	sb := &strings.Builder{}
+	verifRender(sb, ets)
+
+	return sb.String(), "", nil
+}
+
+// VerifDecodeExpanded runs decodeElement, as parseRoot does, on the tree given in the rendering of
+// VerifExpand. It returns every statement appended (also those before an error) and the error.
+// rdfDirection is stored without the validation of newDecoder.
+func VerifDecodeExpanded(tree string, rdfDirection string) ([]rdf.Quad, error) {
+	p := &verifParser{s: tree}
+
+	v, err := p.exp()
+	if err != nil {
+		return nil, fmt.Errorf("verif tree: %v", err)
+	} else if p.i != len(p.s) {
+		return nil, fmt.Errorf("verif tree: trailing input at %d", p.i)
+	}
+
+	d, err := NewDecoder(strings.NewReader(""))
+	if err != nil {
+		return nil, err
+	}
+
+	d.rdfDirection = rdfDirection
+
+	ectx := evaluationContext{
+		global: &globalEvaluationContext{
+			bnStringFactory: blanknodes.NewStringFactory(),
+		},
+		CurrentContainer: &DocumentResource{},
+	}
+
+	err = d.decodeElement(ectx, v, false)
+
+	quads := make([]rdf.Quad, 0, len(d.statements))
+	for _, s := range d.statements {
+		quads = append(quads, s.quad)
+	}
+
+	return quads, err
+}
+
+func verifRender(sb *strings.Builder, v jsonldinternal.ExpandedValue) {
+	switch t := v.(type) {
+	case nil:
+		sb.WriteByte('N')
+	case *jsonldinternal.ExpandedArray:
+		if t == nil {
+			sb.WriteByte('Z')
+			return
+		}
+
+		sb.WriteByte('A')
+		for _, item := range t.Values {
+			verifRender(sb, item)
+		}
+		sb.WriteByte(']')
+	case *jsonldinternal.ExpandedObject:
+		if t == nil {
+			sb.WriteByte('Z')
+			return
+		}
+
+		keys := make([]string, 0, len(t.Members))
+		for k := range t.Members {
+			keys = append(keys, k)
+		}
+		slices.Sort(keys)
+
+		sb.WriteByte('O')
+		for _, k := range keys {
+			sb.WriteString(verifHex([]byte(k)))
+			sb.WriteByte(';')
+			verifRender(sb, t.Members[k])
+		}
+		sb.WriteByte('}')
+	case *jsonldinternal.ExpandedScalarPrimitive:
+		if t == nil {
+			sb.WriteByte('Z')
+			return
+		}
+
+		sb.WriteByte('P')
+		verifRenderValue(sb, t.Value)
+	default:
+		sb.WriteByte('Z')
+	}
+}
+
+func verifRenderValue(sb *strings.Builder, v inspectjson.Value) {
+	switch t := v.(type) {
+	case nil:
+		sb.WriteString("z-")
+		return
+	case inspectjson.NullValue:
+		sb.WriteByte('n')
+	case inspectjson.BooleanValue:
+		if t.Value {
+			sb.WriteByte('t')
+		} else {
+			sb.WriteByte('f')
+		}
+	case inspectjson.StringValue:
+		sb.WriteByte('s')
+		sb.WriteString(verifHex([]byte(t.Value)))
+		sb.WriteByte(';')
+	case inspectjson.NumberValue:
+		sb.WriteByte('d')
+		sb.WriteString(VerifNumber(t.Value))
+		sb.WriteByte(';')
+	case inspectjson.ObjectValue:
+		sb.WriteByte('o')
+	case inspectjson.ArrayValue:
+		sb.WriteByte('a')
+	default:
+		sb.WriteByte('?')
+	}
+
+	sb.WriteString(verifJSONText(v))
+}
+
+// VerifNumber renders a float64 as its bits and the shortest decimal digits strconv finds for it.
+func VerifNumber(f float64) string {
+	bits := fmt.Sprintf("%016x:", math.Float64bits(f))
+
+	switch {
+	case math.IsNaN(f):
+		return bits + "nan"
+	case math.IsInf(f, 1):
+		return bits + "+inf"
+	case math.IsInf(f, -1):
+		return bits + "-inf"
+	}
+
+	e := strconv.FormatFloat(f, 'e', -1, 64)
+
+	sign := "+"
+	if strings.HasPrefix(e, "-") {
+		sign = "-"
+		e = e[1:]
+	}
+
+	mantissa, exp, _ := strings.Cut(e, "e")
+	expInt, _ := strconv.Atoi(exp)
+
+	return bits + sign + strings.ReplaceAll(mantissa, ".", "") + "e" + strconv.Itoa(expInt)
+}
+
+func verifJSONText(v inspectjson.Value) (out string) {
+	defer func() {
+		if r := recover(); r != nil {
+			out = "p"
+		}
+	}()
+
+	buf := &bytes.Buffer{}
+
+	jsonEncoder := json.NewEncoder(buf)
+	jsonEncoder.SetEscapeHTML(false)
+
+	if err := jsonEncoder.Encode(v.AsBuiltin()); err != nil {
+		return "e"
+	}
+
+	return "j" + verifHex(buf.Bytes()[0:len(buf.Bytes())-1]) + ";"
+}
+
+//
+
+func verifHex(b []byte) string {
+	return fmt.Sprintf("%x", b)
+}
+
+func verifUnhex(s string) ([]byte, error) {
+	if len(s)%2 != 0 {
+		return nil, fmt.Errorf("odd hex length")
+	}
+
+	b := make([]byte, 0, len(s)/2)
+
+	for i := 0; i < len(s); i += 2 {
+		v, err := strconv.ParseUint(s[i:i+2], 16, 8)
+		if err != nil {
+			return nil, err
+		}
+
+		b = append(b, byte(v))
+	}
+
+	return b, nil
+}
+
+type verifParser struct {
+	s string
+	i int
+}
+
+func (p *verifParser) hexUntilSemi() (string, error) {
+	j := strings.IndexByte(p.s[p.i:], ';')
+	if j < 0 {
+		return "", fmt.Errorf("unterminated hex at %d", p.i)
+	}
+
+	b, err := verifUnhex(p.s[p.i : p.i+j])
+	if err != nil {
+		return "", err
+	}
+
+	p.i += j + 1
+
+	return string(b), nil
+}
+
+func (p *verifParser) exp() (jsonldinternal.ExpandedValue, error) {
+	if p.i >= len(p.s) {
+		return nil, fmt.Errorf("unexpected end")
+	}
+
+	c := p.s[p.i]
+	p.i++
+
+	switch c {
+	case 'N':
+		return nil, nil
+	case 'A':
+		a := &jsonldinternal.ExpandedArray{}
+
+		for {
+			if p.i >= len(p.s) {
+				return nil, fmt.Errorf("unterminated array")
+			} else if p.s[p.i] == ']' {
+				p.i++
+
+				return a, nil
+			}
+
+			v, err := p.exp()
+			if err != nil {
+				return nil, err
+			}
+
+			a.Values = append(a.Values, v)
+		}
+	case 'O':
+		o := &jsonldinternal.ExpandedObject{
+			Members: map[string]jsonldinternal.ExpandedValue{},
+		}
+
+		for {
+			if p.i >= len(p.s) {
+				return nil, fmt.Errorf("unterminated object")
+			} else if p.s[p.i] == '}' {
+				p.i++
+
+				return o, nil
+			}
+
+			k, err := p.hexUntilSemi()
+			if err != nil {
+				return nil, err
+			}
+
+			v, err := p.exp()
+			if err != nil {
+				return nil, err
+			}
+
+			if _, dup := o.Members[k]; dup {
+				return nil, fmt.Errorf("duplicate member %q", k)
+			}
+
+			o.Members[k] = v
+		}
+	case 'P':
+		v, err := p.value()
+		if err != nil {
+			return nil, err
+		}
+
+		return &jsonldinternal.ExpandedScalarPrimitive{Value: v}, nil
+	}
+
+	return nil, fmt.Errorf("unexpected %q at %d", c, p.i-1)
+}
+
+func (p *verifParser) value() (inspectjson.Value, error) {
+	if p.i >= len(p.s) {
+		return nil, fmt.Errorf("unexpected end")
+	}
+
+	c := p.s[p.i]
+	p.i++
+
+	var v inspectjson.Value
+
+	switch c {
+	case 'z':
+		v = nil
+	case 'n':
+		v = inspectjson.NullValue{}
+	case 't':
+		v = inspectjson.BooleanValue{Value: true}
+	case 'f':
+		v = inspectjson.BooleanValue{Value: false}
+	case 's':
+		s, err := p.hexUntilSemi()
+		if err != nil {
+			return nil, err
+		}
+
+		v = inspectjson.StringValue{Value: s}
+	case 'd':
+		j := strings.IndexByte(p.s[p.i:], ';')
+		if j < 17 {
+			return nil, fmt.Errorf("number at %d", p.i)
+		}
+
+		bits, err := strconv.ParseUint(p.s[p.i:p.i+16], 16, 64)
+		if err != nil {
+			return nil, err
+		}
+
+		p.i += j + 1
+
+		v = inspectjson.NumberValue{Value: math.Float64frombits(bits)}
+	case 'o', 'a':
+		// the content is the JSON text which follows
+	default:
+		return nil, fmt.Errorf("unexpected value %q at %d", c, p.i-1)
+	}
+
+	// jtxt
+	if p.i >= len(p.s) {
+		return nil, fmt.Errorf("unexpected end")
+	}
+
+	switch p.s[p.i] {
+	case '-', 'e', 'p':
+		p.i++
+
+		if c == 'o' || c == 'a' {
+			return nil, fmt.Errorf("object or array value without text at %d", p.i)
+		}
+	case 'j':
+		p.i++
+
+		text, err := p.hexUntilSemi()
+		if err != nil {
+			return nil, err
+		}
+
+		if c == 'o' || c == 'a' {
+			parsed, err := inspectjson.Parse(strings.NewReader(text))
+			if err != nil {
+				return nil, err
+			}
+
+			v = parsed
+		}
+	default:
+		return nil, fmt.Errorf("unexpected text marker at %d", p.i)
+	}
+
+	return v, nil
+}
